@@ -176,8 +176,29 @@ def check_transparency(case, run_s, run_p, probes):
             if a_ != b_:
                 return [V('C13', 'C13.published', 'plain',
                           'published composite after op %d differs: serial %r, parallel %r' % (i, a_, b_))]
+    # what every party was handed: a party that copies its arguments into an
+    # emitted variable would make any difference here a difference of rows
+    ia, ib = _inputs_of(run_s), _inputs_of(run_p)
+    for u in sorted(set(ia) | set(ib)):
+        xa, xb = ia.get(u, []), ib.get(u, [])
+        for n, (x, y) in enumerate(zip(xa, xb)):
+            if x[0] != y[0] or not values_equal(x[1], y[1]):
+                return [V('C13', 'C13.trajectory', 'inputs',
+                          'call %d of %s got (timestep, view) %r serially and %r in parallel' % (n, u, x, y))]
+        if len(xa) != len(xb):
+            return [V('C13', 'C13.trajectory', 'inputs',
+                      '%s computed %d updates serially and %d in parallel' % (u, len(xa), len(xb)))]
     probes['transparency-checked'] = 1
+    probes['party-inputs-compared'] = sum(len(v) for v in ia.values())
     return []
+
+
+def _inputs_of(run):
+    d = {}
+    for e in run.log:
+        if e['k'] in ('NU', 'STEPNU'):
+            d.setdefault(e['uid'], []).append((e.get('ts'), e.get('view')))
+    return d
 
 
 def _exc_disc(run):
